@@ -110,7 +110,9 @@ Evaluations == [members |-> Cardinality(UNION {{<<e.name, m.name>> : m \in Tok(e
 \* observed after every step  [ok, prst, gdN, apiType, adj : Seq(Int), adjExact, plots : Seq(STRING), apiChart]
 \*    prst, gdN, plots from the lxml tree / the saved bytes; apiType, adj, apiChart from the public readers
 InitSt == [phase |-> "empty", kind |-> "none", item |-> "", host |-> ""]
-Hosts == {"slide", "group"}
+\* "sibling": the slide already holds a shape of the SAME type whose adjustments were all given other values (for a chart: a chart of
+\* the same type) - a new shape still reports the definition's defaults, whatever its neighbours were made to look like
+Hosts == {"slide", "group", "sibling"}
 AddAutoShape(s, t, h) == s.phase = "empty" /\ t \in {m.name : m \in ShapeMembers} /\ h \in Hosts
 AfterAddShape(t, h)   == [phase |-> "added", kind |-> "shape", item |-> t, host |-> h]
 AddChart(s, c, h)     == s.phase = "empty" /\ c \in {x.member : x \in Writable} /\ h \in Hosts
